@@ -580,8 +580,11 @@ def gen_crash_sweep(seed, classes, dmax):
   is repeated on the same object (which must then behave like a fresh one)."""
   r = substream(seed, "hist-crash-plan")
   plan = dict(run_seed=seed, datasets={}, ops=[], world=dict(jumpy_clock=False, fresh_restarts=0))
+  # learners whose fit has several phases (constraint generation, basis or prior
+  # construction, optimisation) get twice the share: more places to be interrupted at
+  pool = list(classes) + [c for c in classes if c.endswith("_Supervised") or c in ("LMNN", "SCML")]
   for _ in range(30):
-    name = r.choice(classes)
+    name = r.choice(pool)
     desc = gen_dataset(r, dmax=dmax)
     p = params_for(name, r, _data(desc))
     if p is not None:
